@@ -660,13 +660,40 @@ func main() {
 
 		d := ev.Pick(c, 2, 3)
 		all := enumerate(d)
+		// saturated templates, independent of the bound d: EVERY field non-default at once (the k-th alternative of
+		// each field, cyclically, for every k up to the longest alternative list), once over all fields and once
+		// leaving the fields that choose keys, algorithm, issuer and caller-supplied extensions at their defaults --
+		// the templates that carry the largest number of generated extensions.
+		{
+			maxAlts := 0
+			for _, f := range fields {
+				if n := len(f.alts) - 1; n > maxAlts {
+					maxAlts = n
+				}
+			}
+			mode := map[string]bool{"SignatureAlgorithm": true, "SignerKey": true, "SubjectKey": true, "ExtraExtensions": true, "Issuer": true}
+			nSat := 0
+			for _, skipMode := range []bool{true, false} {
+				for k := 0; k < maxAlts; k++ {
+					var a assign
+					for f, fd := range fields {
+						if n := len(fd.alts) - 1; n > 0 && !(skipMode && mode[fd.name]) {
+							a = append(a, [2]int{f, 1 + k%n})
+						}
+					}
+					all = append(all, a)
+					nSat++
+				}
+			}
+			c.Set("saturated_templates", nSat)
+		}
 		nAlt := 0
 		perField := map[string]int{}
 		for _, f := range fields {
 			nAlt += len(f.alts) - 1
 			perField[f.name] = len(f.alts) - 1
 		}
-		c.Rule(fmt.Sprintf("every certificate template with at most %d of %d fields set to a non-default alternative (%d alternatives in total, full list in coverage.alternatives_per_field) is created by the real CreateCertificate and parsed back; PLUS, independent of that bound, the full product signer key kind {Ed25519, RSA-1024, RSA-2048, RSA-3072, P-224, P-256, P-384, P-521} x requested SignatureAlgorithm {0, every constant MD2WithRSA..Ed25519Sig} x {issued by the parsed CA to each of the 8 subject key kinds | self-signed CA certificate} on the default template (every RSA-PSS variant must really be issued by the RSA-2048 and RSA-3072 signers, issued and self-signed); a case is distinct/non-trivial when the template is inside the documented domain and the certificate was created and parsed by zcrypto; plus every exported ExtKeyUsage constant as the only EKU of the default template; PLUS the name value probe (names.go, tables in coverage.name_probe): every value of a rule-built alphabet {per UTF-8 length class 2/3/4 a rune whose low byte (rune&0xff) is a PrintableString character and one whose low byte is not, U+0080, U+00FF, U+0100, U+0120, each alone and between ASCII letters; every PrintableString punctuation character ' ( ) + , - . / : = ? space alone and all in one value; the ASCII characters * & @ _ alone and between letters; three real-world names whose non-ASCII runes all have a printable low byte} x every string-typed pkix.Name field that ToRDNSequence emits (15) and ExtraNames {unknown OID, givenName, surname} x position {subject of an issued certificate, subject+issuer of a self-signed CA, issuer through a parsed parent of that name, issuer through an unparsed parent template, permitted directory-name constraint, excluded directory-name constraint}: created, parsed by zcrypto AND by Go crypto/x509, names compared in both, signature verified; the ASN.1 string type on the wire is recorded per value class; PLUS reuse histories: every base template with at most 1 non-default field x every edit of the alphabet {field := alternative (every field, every alternative incl. back to the default), no edit, 7 edits inside existing values (Subject.CommonName, Subject.Organization append, SerialNumber.SetInt64, DNSNames append, ExtraExtensions append, IsCA toggle, SubjectKeyId bytes), 4 edits of an unparsed parent template (rename x3, SubjectKeyId)} applied IN PLACE to the same template/parent objects between two CreateCertificate calls (thorough: also three calls, first edit from the covering sub-alphabet): the last certificate is judged by the same expectation function applied to freshly built objects holding the edited values, and its TBSCertificate must equal the one issued from such fresh objects; every creation call is bracketed by a deep snapshot of template and parent (changed input paths are outcome classes 'probe: ...')", d, len(fields), nAlt))
+		c.Rule(fmt.Sprintf("every certificate template with at most %d of %d fields set to a non-default alternative (%d alternatives in total, full list in coverage.alternatives_per_field) is created by the real CreateCertificate and parsed back; PLUS saturated templates (every field non-default at once: the k-th alternative of each field, cyclically, for every k, over all fields and over all fields but the ones choosing keys/algorithm/issuer/caller-supplied extensions -- the templates with the largest number of generated extensions); PLUS, independent of that bound, the full product signer key kind {Ed25519, RSA-1024, RSA-2048, RSA-3072, P-224, P-256, P-384, P-521} x requested SignatureAlgorithm {0, every constant MD2WithRSA..Ed25519Sig} x {issued by the parsed CA to each of the 8 subject key kinds | self-signed CA certificate} on the default template (every RSA-PSS variant must really be issued by the RSA-2048 and RSA-3072 signers, issued and self-signed); a case is distinct/non-trivial when the template is inside the documented domain and the certificate was created and parsed by zcrypto; plus every exported ExtKeyUsage constant as the only EKU of the default template; PLUS the name value probe (names.go, tables in coverage.name_probe): every value of a rule-built alphabet {per UTF-8 length class 2/3/4 a rune whose low byte (rune&0xff) is a PrintableString character and one whose low byte is not, U+0080, U+00FF, U+0100, U+0120, each alone and between ASCII letters; every PrintableString punctuation character ' ( ) + , - . / : = ? space alone and all in one value; the ASCII characters * & @ _ alone and between letters; three real-world names whose non-ASCII runes all have a printable low byte} x every string-typed pkix.Name field that ToRDNSequence emits (15) and ExtraNames {unknown OID, givenName, surname} x position {subject of an issued certificate, subject+issuer of a self-signed CA, issuer through a parsed parent of that name, issuer through an unparsed parent template, permitted directory-name constraint, excluded directory-name constraint}: created, parsed by zcrypto AND by Go crypto/x509, names compared in both, signature verified; the ASN.1 string type on the wire is recorded per value class; PLUS reuse histories: every base template with at most 1 non-default field x every edit of the alphabet {field := alternative (every field, every alternative incl. back to the default), no edit, 7 edits inside existing values (Subject.CommonName, Subject.Organization append, SerialNumber.SetInt64, DNSNames append, ExtraExtensions append, IsCA toggle, SubjectKeyId bytes), 4 edits of an unparsed parent template (rename x3, SubjectKeyId)} applied IN PLACE to the same template/parent objects between two CreateCertificate calls (thorough: also three calls, first edit from the covering sub-alphabet): the last certificate is judged by the same expectation function applied to freshly built objects holding the edited values, and its TBSCertificate must equal the one issued from such fresh objects; every creation call is bracketed by a deep snapshot of template and parent (changed input paths are outcome classes 'probe: ...')", d, len(fields), nAlt))
 		c.Assume("expectation function transcribes the documentation of CreateCertificate, Certificate, pkix.Name and RFC 5280 (oracle.go), not buildExtensions",
 			"Go standard library crypto/x509, encoding/asn1, crypto/rsa, crypto/ecdsa, crypto/ed25519 are correct (used as independent parser and verifier)",
 			"fixture keys of internal/fx; CA fixtures are minted with the code under test and verified like every other certificate",
